@@ -97,7 +97,8 @@ type C14 struct {
 	failPair map[[2]uint64]bool     // (tract, source) reads that fail during the current PackTracts
 	nextFail map[[2]uint64]bool     // chosen by the scheduler for the next PackTracts step
 	PackPlan []int                  // if set: one planned pack fault per round, combinations (position*3+mode) taken in this order
-	K        int                    // tracts per piece: the round packs towards Target = K * padToLength
+	probeNo  int
+	K        int // tracts per piece: the round packs towards Target = K * padToLength
 	Target   int
 	lastSrc  map[core.TractID]int // last source asked per tract during the current PackTracts
 	taint    map[core.TractID]string
@@ -1058,14 +1059,14 @@ func (d *C14) ReadProbe(blob, tract int, off int64, n int) {
 // ---------------------------------------------------------------- the random scheduler
 
 type C14Weights struct {
-	Deliver, Write, Round, Restart, Leader, Heartbeat, Read, Fix int
-	PLose, PFail, PTwice                                         int // per mille
-	PPackFail                                                    int
-	MaxRounds                                                    int
+	Deliver, Write, Round, Restart, Leader, Heartbeat, Read, Fix, Probe int
+	PLose, PFail, PTwice                                                int // per mille
+	PPackFail                                                           int
+	MaxRounds                                                           int
 }
 
 func C14DefaultWeights() C14Weights {
-	return C14Weights{Deliver: 30, Write: 8, Round: 6, Restart: 1, Leader: 1, Heartbeat: 12, Read: 3, Fix: 2, PLose: 40, PFail: 40, PTwice: 20, PPackFail: 150, MaxRounds: 6}
+	return C14Weights{Deliver: 30, Write: 8, Round: 6, Restart: 1, Leader: 1, Heartbeat: 12, Read: 3, Fix: 2, Probe: 2, PLose: 40, PFail: 40, PTwice: 20, PPackFail: 150, MaxRounds: 6}
 }
 
 func (d *C14) fixBusy(blob uint64, tract int) bool {
@@ -1253,6 +1254,10 @@ func (d *C14) RunRandom(w C14Weights, steps int) {
 			b := d.Blobs[d.R.Intn(len(d.Blobs))]
 			d.ReadProbe(b.Idx, d.R.Intn(b.NT), int64(d.R.Intn(60)), d.R.Range(1, 300))
 		}})
+		if d.K == 1 {
+			acts = append(acts, Action{w.Probe, func() { d.PackProbe() }})
+		}
+		acts = append(acts, Action{1, func() { d.ClassProbe(d.R.Intn(len(d.Blobs))) }})
 		acts = append(acts, Action{w.Fix, func() {
 			b := d.Blobs[d.R.Intn(len(d.Blobs))]
 			d.StartFix(b.Idx, d.R.Intn(b.NT))
@@ -1402,3 +1407,194 @@ func (d *C14) OpenProbe(blob int) {
 
 // C14Less orders two descriptors like the model's sort_rpcs.
 func C14Less(a, b []int64) bool { return lessKey(descrKey(a), descrKey(b)) }
+
+// PackProbe: Store.PackTracts at a tractserver, through the real control handler, with a piece of several tracts and,
+// per tract, chosen sources unreachable (every position first/middle/last x one/several/all sources).  Executed atomically;
+// the scratch piece is removed again.  Compared with the model's pack step (line 83) and judged model-free: a piece that
+// PackTracts reports as written holds, at every tract's extent, the bytes of one of that tract's deliverable sources.
+func (d *C14) PackProbe() {
+	type cand struct {
+		blob, tract int
+		ver         int
+		hosts       []int
+	}
+	var cs []cand
+	for _, b := range d.Blobs {
+		db := d.durable(b.Idx)
+		for t := range db.Tracts {
+			if len(db.Tracts[t].Hosts) > 0 {
+				c := cand{blob: b.Idx, tract: t, ver: db.Tracts[t].Version}
+				for _, h := range db.Tracts[t].Hosts {
+					c.hosts = append(c.hosts, int(h))
+				}
+				cs = append(cs, c)
+			}
+		}
+	}
+	if len(cs) < 2 {
+		return
+	}
+	n := d.R.Range(2, 4)
+	if n > len(cs) {
+		n = len(cs)
+	}
+	perm := d.R.Perm(len(cs))[:n]
+	ts := d.R.Range(1, len(d.Cl.TS)-1)
+	d.probeNo++
+	chunk := int64(900000 + d.probeNo)
+	var specs []*core.PackTractSpec
+	fail := map[[2]uint64]bool{}
+	op := []int64{83, int64(ts), chunk, 0, int64(n)}
+	off := 0
+	hit := d.R.Intn(n)
+	mode := d.R.PickInt(0, 1, 2, 2, 3) // 3 = no fault at all
+	type want struct {
+		tid  core.TractID
+		off  int
+		ln   int
+		ver  int
+		srcs []int // sources that can deliver
+	}
+	var wants []want
+	for i, pi := range perm {
+		c := cs[pi]
+		tid := d.TID(c.blob, c.tract)
+		ln := 0
+		if rep, ok := d.replica(c.hosts[0], tid); ok {
+			ln = rep.Len
+		}
+		if d.R.Chance(1, 12) {
+			ln++ // a length no replica has
+		}
+		sp := &core.PackTractSpec{ID: tid, Version: c.ver, Offset: off, Length: ln}
+		l := []int64{int64(c.blob), int64(c.tract), int64(off), int64(ln), int64(c.ver), int64(len(c.hosts))}
+		for _, h := range c.hosts {
+			sp.From = append(sp.From, core.TSAddr{ID: core.TractserverID(h), Host: TSAddr(h)})
+			l = append(l, int64(h))
+		}
+		var failing []int
+		if i == hit && mode != 3 {
+			k := 1
+			if mode == 2 || len(c.hosts) == 1 {
+				k = len(c.hosts)
+			} else if mode == 1 && len(c.hosts) > 2 {
+				k = d.R.Range(2, len(c.hosts)-1)
+			}
+			for _, hi := range d.R.Perm(len(c.hosts))[:k] {
+				failing = append(failing, c.hosts[hi])
+				fail[[2]uint64{tkey(tid), uint64(c.hosts[hi])}] = true
+			}
+			sort.Ints(failing)
+		}
+		l = append(l, int64(len(failing)))
+		for _, h := range failing {
+			l = append(l, int64(h))
+		}
+		op = append(op, l...)
+		w := want{tid: tid, off: off, ln: ln, ver: c.ver}
+		for _, h := range c.hosts {
+			if fail[[2]uint64{tkey(tid), uint64(h)}] {
+				continue
+			}
+			if rep, ok := d.replica(h, tid); ok && rep.HasVersion && rep.Version == c.ver && rep.Len == ln {
+				w.srcs = append(w.srcs, h)
+			}
+		}
+		wants = append(wants, w)
+		specs = append(specs, sp)
+		off += (ln + C14Target - 1) / C14Target * C14Target
+	}
+	target := off
+	if target == 0 {
+		target = C14Target
+	}
+	op[3] = int64(target)
+	cid := core.RSChunkID{Partition: d.rsPartition(), ID: uint64(chunk)}
+	d.Cl.S.SetAuto(true)
+	d.failPair, d.failMask, d.lastSrc = fail, nil, nil
+	err := d.Cl.TS[ts].PackTracts(core.TractserverID(ts), target, specs, cid)
+	d.failPair = nil
+	piece, has := d.replica(ts, cid.ToTractID())
+	obs := append([]int64{int64(err)}, d.dumpPiece(ts, chunk)...)
+	// model-free judgement
+	missing := false
+	for _, w := range wants {
+		if len(w.srcs) == 0 {
+			missing = true
+		}
+	}
+	pos := func(i int) string {
+		switch {
+		case i == 0:
+			return "first"
+		case i == len(wants)-1:
+			return "last"
+		}
+		return "middle"
+	}
+	if err == core.NoError {
+		if missing {
+			for i, w := range wants {
+				if len(w.srcs) == 0 {
+					d.report("pack-probe/packtracts-ok-although-a-tract-had-no-deliverable-source/"+pos(i), "PackTracts reported success although none of the sources of one tract of the piece delivered it: the piece has a hole where that tract belongs", map[string]interface{}{"tract": w.tid.String(), "position": pos(i), "of": len(wants)})
+				}
+			}
+		}
+		all := expandRuns(piece.Runs)
+		for i, w := range wants {
+			if len(w.srcs) == 0 || !has || w.off+w.ln > len(all) {
+				continue
+			}
+			ok := false
+			for _, h := range w.srcs {
+				if rep, okr := d.replica(h, w.tid); okr && string(expandRuns(rep.Runs)) == string(all[w.off:w.off+w.ln]) {
+					ok = true
+				}
+			}
+			if !ok {
+				d.report("pack-probe/piece-does-not-hold-a-copy-of-a-deliverable-source/"+pos(i), "PackTracts reported success but a tract's extent of the piece is not a copy of any source that could deliver it", map[string]interface{}{"tract": w.tid.String()})
+			}
+		}
+	} else if has {
+		d.report("pack-probe/failed-packtracts-left-a-piece", "PackTracts reported an error and left a piece behind", map[string]interface{}{"err": err.String()})
+	}
+	d.Cl.TS[ts].GCTract(core.TractserverID(ts), nil, []core.TractID{cid.ToTractID()})
+	d.Cl.S.Settle()
+	d.Cl.S.SetAuto(false)
+	d.Cl.Touched()
+	d.line(op, obs)
+	d.Stats["pack-probe"]++
+	if missing {
+		d.Stats["pack-probe.a-tract-without-source"]++
+	}
+}
+
+// ClassProbe submits a raw UpdateStorageClass(blob, target class) in the current term while at least one tract of the
+// blob has no RS pointer yet: the durable command must refuse (it is the last guard of the class switch: applying it
+// clears the replicated locations of every tract).
+func (d *C14) ClassProbe(blob int) {
+	b := d.Blobs[blob]
+	db := d.durable(blob)
+	if !b.Warm || !db.OK || db.Class != core.StorageClassREPLICATED {
+		return
+	}
+	plain := -1
+	for t := range db.Tracts {
+		if !db.Tracts[t].HasRS {
+			plain = t
+		}
+	}
+	if plain < 0 {
+		return
+	}
+	err := d.Cl.D.SH.UpdateStorageClass(b.ID, core.StorageClassRS_6_3, d.Cl.D.Term())
+	d.Cl.S.Settle()
+	after := d.durable(blob)
+	if err == core.NoError || after.Class != db.Class || len(after.Tracts[plain].Hosts) != len(db.Tracts[plain].Hosts) {
+		d.report("class-switch-applied-although-a-tract-is-not-erasure-coded",
+			"UpdateStorageClass was applied to a blob one of whose tracts has no RS pointer: that tract's replicated locations are cleared, it has no storage left",
+			map[string]interface{}{"blob": blob, "tract": plain, "err": err.String(), "hosts-after": fmt.Sprint(after.Tracts[plain].Hosts)})
+	}
+	d.line([]int64{84, int64(blob)}, []int64{int64(err)})
+	d.Stats["class-probe"]++
+}
